@@ -142,7 +142,7 @@ func runAnswer(c AnswerCase) *ev.Failure {
 			return ev.Failf("harness-read", "the reference image of the request was rejected on stream %d: %v", c.Stream, err)
 		}
 		if m.MessageStream() != uint(c.Stream) {
-			return ev.Failf("harness-read", "request fed on stream %d reports stream %d", c.Stream, m.MessageStream())
+			return ev.Failf("request-stream", "request fed on stream %d reports stream %d", c.Stream, m.MessageStream())
 		}
 	default:
 		return ev.Failf("harness-case", "unknown route %q", c.Route)
